@@ -4,6 +4,7 @@ from ..r_iso import rule_admission_guards, rule_filter_and_operators
 
 from ..r_domains import rule_domains
 from ..r_escape import rule_yield_then_mutate, rule_borrowed_pool
+from ..r_hygiene import rule_hygiene as _rule_hygiene
 
 LEVEL = 'other'
 
@@ -16,3 +17,4 @@ def run(ck, repo):
     in_iso = lambda f: f.module.name == 'chython.algorithms.isomorphism'
     rule_yield_then_mutate(ck, repo, 'C07.D3-yielded-mappings-immutable', in_iso, floor=5)
     rule_borrowed_pool(ck, repo, 'C07.D3-pooled-mappings-copied', in_iso, floor=2)
+    _rule_hygiene(ck, repo, 'C07.H-dataflow-hygiene', 'C07')
